@@ -14,6 +14,9 @@ From SV Require Import proofs.NglobRefute.
 From SV Require Import proofs.NglobNamed.
 From SV Require Import proofs.NglobShape.
 From SV Require Import proofs.NglobCorrect.
+From SV Require Import model.NglobPy.
+From SV Require Import gen.GenNglobCode.
+From SV Require Import proofs.NglobCodeTie.
 Import ListNotations.
 Open Scope N_scope.
 
@@ -287,6 +290,28 @@ Theorem C17_model_tied_to_source :
   /\ gen_fingerprints = golden_fingerprints
   /\ (dotall = gen_compile_dotall /\ gen_glob_skips_nondir_slash = true).
 Proof. exact model_tied_to_source. Qed.
+
+(* The tie by TRANSLATION.  gen/GenNglobCode.v is regenerated on every run from the Python AST of
+   nglob.py, statement by statement (translator/gen_nglob_code.py, fail closed), over the Python-level
+   primitives of model/NglobPy.v.  For ALL inputs the translated extend / reduce / will_change /
+   files / _match_values / _get_wildcard_name / convert_nglob_to_glob are the model functions the
+   theorems above are about (for every key type whose equality is reflexive, as Python requires of
+   dictionary keys; key_eqb is).  The literal texts between wildcards never contain `*` or `?` and
+   are never empty, which is what lets the string comparisons of the code (`part == "*"`) be read
+   as tests on the kind of token. *)
+Theorem C17_translated_code_equals_model :
+  (forall (K : Type) (keqb : K -> K -> bool) (mv : str -> option K), (forall k, keqb k k = true) ->
+     (forall r paths, gen_extend K keqb mv r paths = extend keqb mv r paths)
+     /\ (forall r paths, gen_reduce K keqb mv r paths = reduce keqb mv r paths)
+     /\ (forall r deleted added, gen_will_change K keqb mv r deleted added = will_change keqb mv r deleted added)
+     /\ (forall r q, In q (gen_files K r) <-> In q (files r)))
+  /\ (forall k : key, key_eqb k k = true)
+  /\ (forall r names path, gen_match_values r names path = match_values r names path)
+  /\ (forall n, gen_get_wildcard_name (TName n) = if is_nil n then CErr EEmptyName else COk n)
+  /\ (forall p subs, gen_conv_glob p subs = conv_glob p subs)
+  /\ (forall p, Forall lit_ok (tokenize p))
+  /\ forallb (fun tc => str_eqb (tok_text (fst tc)) (snd tc)) gen_tok_consts = true.
+Proof. exact translated_code_equals_model. Qed.
 
 Example C17_example_update :
   match ng_make ex_pat [] with
